@@ -8,7 +8,13 @@ PROP = {
                    "the real TxNotifier exactly as the btcd/bitcoind backends do; after every backend step every client "
                    "drains its channels and a trace automaton checks soundness (Confirmed/Spend only with the details of "
                    "the active chain and enough confirmations, never twice), the reorg notice before any renewed "
-                   "notification, completeness at quiescent points, and persisted hint <= true inclusion height."),
+                   "notification, completeness at quiescent points, and persisted hint <= true inclusion height. "
+                   "Several clients share a ConfRequest with different options (WithIncludeBlock on/off, different "
+                   "confirmation counts) and register before the confirmation, after the details are cached, and while "
+                   "others still wait for more confirmations; oracle conf_block_details checks on every Confirmed that a "
+                   "client that asked for the block gets the reference chain's block at the notified height of the active "
+                   "branch (hash = BlockHash, transaction at TxIndex, same transaction list) and that a client that did "
+                   "not ask gets none (historical rescans are answered with the block attached, as the real backends do)."),
     "level_note": ("Sampled histories over a universe of <=3 watched scripts / <=3 watched outpoints and <=14 "
                    "transactions; reorg safety limit in {3,6,144}. Not generated: address reuse, witness-less spenders, "
                    "slow consumers, a rescan result that is already stale when delivered, reorgs while the node is down."),
@@ -36,12 +42,19 @@ PROP = {
                           "oracle_conf_complete_evals": 135000, "oracle_spend_complete_evals": 190000,
                           "oracle_hint_evals": 290000, "negative_conf_events": 1100, "spend_reorg_events": 1500,
                           "historical_delivered": 16500, "disconnects": 24000,
-                          "histories_with_limit_depth_reorg": 520},
+                          "histories_with_limit_depth_reorg": 520,
+                          "oracle_conf_block_details_evals": 10000, "oracle_conf_block_requested_evals": 5000,
+                          "oracle_conf_block_unrequested_evals": 5000, "conf_block_mixed_option_deliveries": 5300,
+                          "conf_block_requested_after_noblock_cached_registration": 530,
+                          "conf_block_requested_from_rescan": 2500},
                 "thorough": {"cases": 100000, "oracle_conf_sound_evals": 320000, "oracle_spend_sound_evals": 450000,
                              "oracle_conf_complete_evals": 4500000, "oracle_spend_complete_evals": 6000000,
                              "oracle_hint_evals": 9500000, "negative_conf_events": 37000,
                              "spend_reorg_events": 50000, "historical_delivered": 550000, "disconnects": 800000,
-                             "histories_with_limit_depth_reorg": 17000},
+                             "histories_with_limit_depth_reorg": 17000,
+                             "oracle_conf_block_details_evals": 320000, "oracle_conf_block_requested_evals": 150000,
+                             "oracle_conf_block_unrequested_evals": 150000,
+                             "conf_block_mixed_option_deliveries": 160000},
             },
         },
         {
@@ -54,10 +67,13 @@ PROP = {
             "floors": {
                 "quick": {"cases": 80, "concurrent_connects": 900, "concurrent_client_ops": 1300,
                           "oracle_conf_sound_evals": 300, "oracle_spend_sound_evals": 450,
-                          "oracle_conf_complete_evals": 2400, "oracle_hint_evals": 4500},
+                          "oracle_conf_complete_evals": 2400, "oracle_hint_evals": 4500,
+                          "oracle_conf_block_details_evals": 280, "oracle_conf_block_requested_evals": 130,
+                          "conf_block_mixed_option_deliveries": 160},
                 "thorough": {"cases": 6000, "concurrent_connects": 66000, "concurrent_client_ops": 96000,
                              "oracle_conf_sound_evals": 22000, "oracle_spend_sound_evals": 33000,
-                             "oracle_conf_complete_evals": 180000, "oracle_hint_evals": 330000},
+                             "oracle_conf_complete_evals": 180000, "oracle_hint_evals": 330000,
+                             "oracle_conf_block_details_evals": 22000, "oracle_conf_block_requested_evals": 9500},
             },
         },
     ],
